@@ -70,6 +70,13 @@ func (s *State) assume(t Term) {
 	if t.S == "true" {
 		return
 	}
+	// keep conjuncts separate, so that irrelevant (e.g. quantified) ones can be sliced away per query
+	if strings.HasPrefix(t.S, "(and ") {
+		for _, c := range splitAnd(t) {
+			s.assume(c)
+		}
+		return
+	}
 	s.pc = append(s.pc, PC{T: t})
 }
 
@@ -100,6 +107,7 @@ type Obligation struct {
 	MustFail    bool // vacuity canary: expected NOT to be provable
 	MustBeSat   bool // reachability cover: assumptions must be satisfiable (goal=false must fail)
 	ClauseText  string
+	Parts       []Term // conjuncts of Goal (fallback: proved one by one)
 	Replay      *ReplayInfo
 }
 
@@ -166,7 +174,7 @@ type Exec struct {
 	inlined           []string
 	boxedDone         map[*FuncInfo]bool
 	usedContracts     map[string]bool
-	canaryDone        bool
+	canaryCount       int
 	entrySt           *State
 	events            []event
 }
